@@ -139,6 +139,11 @@ func (b *Base) DoClose() error {
 }
 func (b *Base) Ret(m string) string { return b.C.Rets[m] }
 
+// NameMix gives a function-local type (which cannot declare methods) its component name through a promoted method.
+type NameMix struct{ N string }
+
+func (n *NameMix) Naming() string { return n.N }
+
 // Based is implemented by every generated component and proxy.
 type Based interface{ WxBase() *Base }
 
